@@ -88,3 +88,9 @@ claim(
     "Seeded random exploration over generated functions (bindings inside except/with/for/try/else blocks, nested def/class, comprehension and walrus variables, global/nonlocal declarations, closures): ~30 name checks per function against symtable.symtable(), plus refusal checks (SelectorError before anything runs: zero interact() calls, instrument_count back to 0, original code object) and a fixed battery of 11 uninstrumentable objects (TypeError). Held-on-observed.",
     "Python's symtable is the arbiter; names occurring only in nested scopes are not asserted.",
 )
+claim(
+    "C11",
+    "trace monitor: raw tag-selector streams vs the hooked twin's bindings labelled with each binding's own annotation; InteractLog monitor for 'only the selected bindings are instrumented'; exhaustive TagSet algebra",
+    "Seeded random exploration of functions with random tag sets (string and object form, permuted and repeated members) on parameters and annotated assignments x every tag of a 4-letter alphabet x {$x:@T, *:@T, v:@T, unrestricted $x}, plus return-annotation tags on a function family and an exhaustive check of TagSet equality/matching over all subsets, permutations and repetitions. Held-on-observed.",
+    "A binding carries T iff the annotation at that binding site contains T; return tags in object form only.",
+)
